@@ -96,3 +96,14 @@ package schema
 //@   loop 3 invariant not-zero-tracks-key-parts: notZero == (sawNonZero == 1)
 //@   loop 3 exit-do pendingParent = ite(sawNonZero == 1, 1, 0)
 //@   ensures no-parent-with-a-non-zero-key-part-left-out: old(pendingParent) == 0 ==> pendingParent == 0
+
+//@ # ---------- names of parsed indexes and constraints do not change after parsing (used by C20) ----------
+//@ immutable Constraint.Name
+//@   writers schema.(*Relationship).ParseConstraint
+//@   tags C20
+//@ immutable Index.Name
+//@   writers schema.(*Schema).ParseIndexes schema.parseFieldIndexes
+//@   tags C20
+//@ immutable CheckConstraint.Name
+//@   writers schema.(*Schema).ParseCheckConstraints
+//@   tags C20
